@@ -62,15 +62,11 @@ KNOWN = {
 # One id per open finding whose input class is currently excluded by construction.  When a finding is fixed in /repo, delete its id
 # from this set (nothing else): the class is then generated and asserted like everything else, and its witness must pass.
 ACTIVE_EXCLUSIONS = {
-    'C05-ucs4-decode-no-range-check',
-    'C05-ucs4-swapped-encode-supplementary',
     'C05-utf8-encode-unpaired-surrogate',
     'C05-ucs4-encode-lone-low-surrogate',
     'C05-table-nul-unrepresentable',
-    'C05-table-can-truncates-codepoint',
     'C05-table-bestfit-without-icu-counterpart',
     'C05-icu-can-supplementary',
-    'C05-icu-encode-throw-overread',
     'C05-icu-decode-substitutes-illegal',
     'C05-icu-encode-small-buffer-throw',
 }
